@@ -187,6 +187,17 @@ func (u *U) Len(x *E) *E {
 	if x.Op == "nil" {
 		return u.Int(0)
 	}
+	if x.Op == "array" {
+		return u.Int(int64(len(x.Args)))
+	}
+	// arr[:] has the length of the array
+	if x.Op == "slice" && x.Args[1] == nil && x.Args[2] == nil && x.Args[0].Typ != nil {
+		if pt, ok := x.Args[0].Typ.Underlying().(*types.Pointer); ok {
+			if at, isArr := pt.Elem().Underlying().(*types.Array); isArr {
+				return u.Int(at.Len())
+			}
+		}
+	}
 	return u.mk("len", "", types.Typ[types.Int], x)
 }
 
@@ -1386,4 +1397,18 @@ func (u *U) CaseSplit(e *E) []*E {
 		}
 	}
 	return out
+}
+
+// Index builds x[i]; an element of an array value at a constant position is
+// the element itself.
+func (u *U) Index(x, i *E, typ types.Type) *E {
+	if x.Op == "ite" {
+		return u.ITE(x.B, u.Index(x.Args[0], i, typ), u.Index(x.Args[1], i, typ))
+	}
+	if x.Op == "array" {
+		if k, ok := i.IntVal(); ok && k >= 0 && k < int64(len(x.Args)) {
+			return x.Args[k]
+		}
+	}
+	return u.mk("index", "", typ, x, i)
 }
